@@ -162,7 +162,7 @@ def run(ctx):
         mon = ReadyMonitor(ctx, fl)
         mon.install(probe)
         for i, rnd in ctx.cases("engines", nengines):
-            spec = E.gen_engine(rnd, activations=("General",), flags=False, locks=False, d=3, resolutions=[5, 10, 37], max_depth=2, allow_output_antecedent=True)
+            spec = E.gen_engine(rnd, activations=("General",), flags=False, locks=False, d=3, resolutions=[5, 10, 37], max_depth=2, allow_output_antecedent=True, share_defuzzifier=True, free_weights=True)
             items = removable(spec)
             subsets = [c for r in range(len(items) + 1) for c in itertools.combinations(items, r)]
             if len(subsets) > cap:
@@ -223,6 +223,31 @@ def run(ctx):
             mon.verdict.clear()
             if i < 2:
                 ctx.sample("engine", {"fll": str(E.build(fl, spec))[:1200], "removable": [list(x) for x in items], "subsets_tried": len(subsets)})
+        # one weighted defuzzifier object shared by output variables of different kinds (as Engine.configure does), processed
+        # repeatedly: a ready engine must stay processable whatever the defuzzifier saw before
+        for i, rnd in ctx.cases("shared-defuzzifier", ctx.scale(30, 600)):
+            spec = E.gen_engine(rnd, activations=("General",), flags=False, locks=False, d=3, kinds=("ts", "tsukamoto", "inverse"), max_depth=1, allow_output_antecedent=False)
+            if len(spec["outputs"]) < 2 or len({o["kind"] for o in spec["outputs"]}) < 2:
+                continue
+            for o in spec["outputs"]:
+                o["defuzzifier"]["type"] = "Automatic"
+            spec["shared_defuzzifier"] = rnd.choice(["WeightedAverage", "WeightedSum"])
+            if rnd.random() < 0.5:
+                spec["outputs"].reverse()
+            try:
+                engine = E.build(fl, spec)
+            except Exception:
+                continue
+            engine.is_ready()
+            for row in E.finite_rows(rnd, spec, 3):
+                for v, x in zip(engine.input_variables, row):
+                    v.value = x
+                try:
+                    engine.process()
+                except Exception:
+                    pass
+            ctx.hit("workload:shared defuzzifier object")
         probe.report(ctx)
         reach.report(ctx)
+    ctx.require("workload:shared defuzzifier object")
     ctx.require("hook:Engine.is_ready", "hook:Engine.process", "event:is_ready:True", "event:is_ready:False", "event:process after ready", "converse:conjunction", "converse:disjunction", "converse:implication", "converse:aggregation", "converse:defuzzifier", "raise-site:Antecedent.activation_degree:missing operator surfaced", "raise-site:OutputVariable.defuzzify:missing operator surfaced")
